@@ -8,6 +8,8 @@ import (
 
 	dcp "github.com/Trendyol/go-dcp"
 	"github.com/Trendyol/go-dcp/api"
+	"github.com/Trendyol/go-dcp/config"
+	"github.com/asaskevich/EventBus"
 	"github.com/Trendyol/go-dcp/helpers"
 	"github.com/Trendyol/go-dcp/membership"
 	"github.com/prometheus/client_golang/prometheus"
@@ -355,3 +357,9 @@ func dcp_discoveryMetric(e *DcpEnv) [2]int {
 	m := dcp.VerifDiscovery(e.D).GetMetric()
 	return [2]int{m.MemberNumber, m.TotalMembers}
 }
+
+func apiFor(cfg *config.Dcp, bus EventBus.Bus) api.API {
+	return api.NewAPI(cfg, nil, nil, nil, []prometheus.Collector{}, bus)
+}
+
+func apiPut(a api.API, body string) (int, string, error) { return api.VerifPutInfo(a, []byte(body)) }
